@@ -24,6 +24,18 @@ CATALOG = {
     "C04": {
         "drivers": [("align", {"quick": 400, "thorough": 20000}, {})],
     },
+    "C05": {
+        "drivers": [("divide", {"quick": 100, "thorough": 5000}, {})],
+        "models": [
+            # the candidate rule as implemented: TLC is expected to find the non-termination lasso (KF-C05-pingpong)
+            {"module": "Divide", "cfg": {"quick": "MC_Divide_impl", "thorough": "MC_Divide_impl"},
+             "violation_expected": "Temporal property Terminates was violated"},
+            # the leading-term rule: identity invariant and termination hold; its initial pairs are replayed
+            {"module": "Divide", "cfg": {"quick": "MC_Divide_lead", "thorough": "MC_Divide_lead"},
+             "extract": "divide_pairs", "replay": "run_divide_pair",
+             "limit": {"quick": 500, "thorough": 6000}},
+        ],
+    },
     "C06": {
         "drivers": [("deriv", {"quick": 500, "thorough": 20000}, {})],
     },
@@ -87,11 +99,16 @@ def run_model_stage(pid: str, m: dict, tier: str, seed: int, wd: str):
         log = os.path.join(wd, cfg + ".tlc.log")
         with open(log, "w") as fh:
             fh.write(res["out"])
-        if not m.get("violation_expected"):
+        expected = m.get("violation_expected")
+        if not expected or expected not in res["out"]:
             raise tlc.MachineryError(
                 "an invariant of the specification itself failed in bounded model %s: the oracle is wrong, "
                 "not the implementation.\n%s" % (cfg, tlc._tail(res["out"], 60)))
+    if m.get("violation_expected") and not res["violated"]:
+        raise tlc.MachineryError("bounded model %s no longer shows the expected design-level violation (%s)" % (
+            cfg, m["violation_expected"]))
     stats = {"model": m["module"], "config": cfg, "distinct": res["distinct"], "generated": res["generated"],
+             "expected_violation_found": bool(m.get("violation_expected")),
              "depth": res["depth"], "wall_s": round(res["wall_s"], 1), "completed": res["completed"],
              "actions": {k: v for k, v in res["coverage"].items() if k.startswith(m["module"] + ".")}}
     for act in m.get("required_actions", []):
